@@ -18,7 +18,7 @@ RULE = ("seeded small smooth models (1-3 nodes, one node per type so that initia
         "reference solution for adaptive solvers; non-trivial = at least 2 state variables or an input; distinct = distinct "
         "(spec hash, run settings)")
 DECIDING = ['trace_calls_checked', 'rows_compared', 'index_checks', 'cutoff_checks', 'adaptive_points_compared',
-            'heun_runs', 'euler_runs', 'scipy_runs', 'order_checks', 'durations_with_quotient_just_below_integer']
+            'heun_runs', 'euler_runs', 'scipy_runs', 'order_checks', 'durations_with_quotient_just_below_integer', 'oscillator_runs']
 ASSUMPTIONS = ['sampling step is an integer multiple of the step, T an integer multiple of the sampling step',
                'cutoff is either 0, a half-way point between samples or exactly representable',
                'Heun on a time-dependent RHS: either stage-time convention accepted']
@@ -35,6 +35,8 @@ def plan(tier, seed):
         cases.append({'family': 'main', 'cseed': rnd.randrange(1 << 30), 'solver': solver})
     k = 8 if tier == 'quick' else 80
     cases += [{'family': 'main', 'cseed': rnd.randrange(1 << 30), 'solver': 'order'} for _ in range(k)]
+    # relaxation oscillators over several time units with adaptive solvers at moderate tolerance (steps get rejected)
+    cases += [{'family': 'oscillator', 'cseed': rnd.randrange(1 << 30), 'solver': 'oscillator'} for _ in range(10 if tier == 'quick' else 200)]
     return cases
 
 
@@ -112,7 +114,9 @@ def run_case(case, ctx):
                 'input': list(inputs) if inputs else None}
     res['sig'] = stable_hash([spec, settings])
     try:
-        if case['solver'] == 'order':
+        if case['solver'] == 'oscillator':
+            msg = oscillator_check(rnd, mech)
+        elif case['solver'] == 'order':
             msg = order_check(spec, ref, keys, outputs, rnd, mech)
         elif case['solver'] in ('euler', 'heun'):
             msg = fixed_step(spec, ref, keys, outputs, case['solver'], dt, m, nrows, dts, T, cutoff, jcut, inputs,
@@ -235,6 +239,42 @@ def fixed_step(spec, ref, keys, outputs, solver, dt, m, nrows, dts, T, cutoff, j
                 return (f"storage cadence: column {list(outputs)[ci]} rows {got[:3, ci].tolist()} are not the traced states "
                         f"at steps {rows[:3]} ({col[:3].tolist()})")
             mech['cadence_checks'] = mech.get('cadence_checks', 0) + 1
+    return None
+
+
+def oscillator_check(rnd, mech):
+    """scipy methods at rtol 1e-6 on two coupled van der Pol units over several time units: the sampled solution must be within
+    50*rtol of a tight-tolerance reference solution (shape, index as usual)"""
+    from scipy.integrate import solve_ivp
+    from vp.props.c02 import oscillator_spec
+    spec = oscillator_spec(rnd)
+    ref = RefModel(spec)
+    keys = list(ref.state_keys)
+    outputs = {f'o{i}': '/'.join(k) for i, k in enumerate(keys)}
+    method = rnd.choice(['RK45', 'RK45', 'RK23', 'DOP853', 'LSODA'])
+    T, dts, rtol = rnd.choice([4.0, 6.0, 8.0]), 0.05, 1e-6
+    nrows = int(round(T / dts))
+    df = _run(spec, outputs, T=T, dt=1e-3, solver='scipy', dts=dts, cutoff=0.0, method=method, rtol=rtol, atol=1e-9)
+    mech['scipy_runs'] = mech.get('scipy_runs', 0) + 1
+    mech['oscillator_runs'] = mech.get('oscillator_runs', 0) + 1
+    msg = check_frame(df, list(outputs), nrows, dts, 0.0, 0, mech)
+    if msg:
+        return msg
+    p = ref.p0()
+
+    def f(t, y):
+        d, _ = ref.rhs(dict(zip(keys, y)), p, t)
+        return [d[k] for k in keys]
+    times = np.arange(0, nrows) * dts
+    sol = solve_ivp(f, (0.0, T), [float(ref.val[k]) for k in keys], method='DOP853', rtol=1e-12, atol=1e-14, t_eval=times)
+    if not sol.success:
+        return 'discard'
+    err = float(np.max(np.abs(df.values - sol.y.T)))
+    scale = max(1.0, float(np.max(np.abs(sol.y))))
+    if not err <= 50 * rtol * scale:
+        return (f"scipy/{method} at rtol={rtol} on coupled van der Pol units over T={T}: deviates from the tight-tolerance reference by "
+                f"{err:.3e} (allowed {50 * rtol * scale:.1e})")
+    mech['adaptive_points_compared'] = mech.get('adaptive_points_compared', 0) + df.shape[0]
     return None
 
 
